@@ -29,6 +29,7 @@ func runC05(c *Ctx) {
 	c.rule("enable-result", "(shared with C09) the config and serial EnableVerification returns belong to one ViewVersion call / one monitor reply", 6)
 	c.rule("exit-on-fresh-scan", "(shared with C08) the monitor stops stacking reports only when a scan of the watching bits made for the Done event finds none: a still-watching source's reports are always stacked", 1)
 	c.rule("copier-state-fresh", "(shared with C02) every stack starts with empty memo tables: a re-stack cannot be answered from an earlier stack's copies", 2)
+	c.rule("watchargs-per-source", "(shared with C01) reports are attributed to the reporting source", 1)
 	c.rule("events-capacity", "the Events channel is created with a constant capacity of at least 1 (the writer's non-blocking send can park one version)", 1)
 
 	k := loadCore(c)
@@ -159,6 +160,7 @@ func runC05(c *Ctx) {
 
 	// ---- atomic-pair ------------------------------------------------------------------
 	k.checkExitOnFreshScan("exit-on-fresh-scan")
+	k.checkWatchArgsPerSource("watchargs-per-source")
 	if cp := loadCopier(c); cp != nil {
 		c02CopierStateFresh(c, cp, "copier-state-fresh")
 	}
